@@ -43,7 +43,45 @@ def _walk(fn):
     return out
 
 
+def _page_step_resets_bank_state(ctx, rep):
+    """Block access walks video memory row by row; a bank step changes some of the walk's variables, and a page step
+    (the last bank of a page was passed) must put every one of those back to its start-of-page value 0 -- a variable
+    left over from the previous page sends the rest of the block to the wrong scan lines."""
+    wm = ctx.fn(FB + ':GraphicsMemoryMapper._walk_memory')
+    banks = [n for n in own_nodes(wm) if isinstance(n, ast.If) and norm(n.test) == 'offset >= bank_size']
+    ok = len(banks) == 1
+    pages = [n for n in (own_nodes(banks[0]) if ok else []) if isinstance(n, ast.If) and norm(n.test) == 'bank_offset >= page_size']
+    ok = ok and len(pages) == 1
+    if not ok:
+        rep.error('_walk_memory: bank / page step structure not recognised')
+        return
+
+    def assigned(nodes, skip=None):
+        out = {}
+        for n in nodes:
+            if skip is not None and any(n is x for x in ast.walk(skip)):
+                continue
+            if isinstance(n, ast.Assign):
+                t, v = n.targets[0], n.value
+                if isinstance(t, ast.Tuple) and isinstance(v, ast.Tuple) and len(t.elts) == len(v.elts):
+                    for a, b in zip(t.elts, v.elts):
+                        out[norm(a)] = norm(b)
+                elif isinstance(t, ast.Name):
+                    out[t.id] = norm(v)
+            elif isinstance(n, ast.AugAssign) and isinstance(n.target, ast.Name):
+                out[n.target.id] = 'aug'
+        return out
+    bank_vars = assigned(own_nodes(banks[0]), skip=pages[0])
+    page_vars = assigned(own_nodes(pages[0]))
+    need = sorted(bank_vars)
+    missing = [v for v in need if page_vars.get(v) != '0']
+    rep.ob('walk.page-step-resets-bank-state', 'entering the next page resets every variable the bank step moves (%s) to 0' % ', '.join(need), not missing and len(need) >= 4,
+           'not reset to 0 at a page step: %s' % missing, ctx.where(pages[0]))
+    rep.ob('walk.page-step-advances', 'a page step advances the page and the page offset', page_vars.get('page') == 'aug' and page_vars.get('page_offset') == 'aug', repr(page_vars), ctx.where(pages[0]))
+
+
 def check(ctx, rep):
+    _page_step_resets_bank_state(ctx, rep)
     for cname, ipb in (('CGAMemoryMapper', 'self._ppb'), ('EGAMemoryMapper', '8'), ('Tandy6MemoryMapper', None)):
         cls = ctx.cls('%s:%s' % (FB, cname))
         m = class_methods(cls)
@@ -120,6 +158,8 @@ def variants(ctx):
         return lambda tree: f(mu.find_def(tree, f_name))
 
     return [
+        Va('page-step-keeps-start-row', 'break', FB,
+           lambda tree: mu.replace_stmt(mu.find_def(tree, 'GraphicsMemoryMapper._walk_memory'), mu.text_is('y, start_y = (0, 0)'), 'y = 0'), expect='walk.page-step-resets'),
         Va('cga-writer-other-density', 'break', FB,
            in_fn('CGAMemoryMapper.set_memory', lambda fn: mu.replace_expr(fn, mu.text_is('self._ppb'), '8')), expect='mapper.same-density'),
         Va('ega-reader-no-plane-shift', 'break', FB,
